@@ -33,6 +33,11 @@ def corpus(tier, seed, names, salt="pipe"):
                                  "Number", "Comma")]
     streams.append(("brackets", ["T " + " ".join(map(str, t)) for L in ((4, 5, 6) if tier == "thorough" else (4, 5))
                                  for t in itertools.product(br, repeat=L)]))
+    # nested expressions and separators: every sequence of length <= 7 (8 thorough) over `{`, `}`, a value and the
+    # blank-line separator - which separators are kept, dropped or spliced out next to closed inner expressions
+    bs = [tts.index(x) for x in ("StartExpression", "EndExpression", "Number", "Subexpression")]
+    streams.append(("braces_separators", ["T " + " ".join(map(str, t)) for L in (range(4, 9) if tier == "thorough" else range(4, 8))
+                                          for t in itertools.product(bs, repeat=L)]))
     k = 300000 if tier == "thorough" else 40000
     streams.append(("rep_soup_5_9", ["T " + " ".join(str(rng.choice(rep)) for _ in range(rng.randint(5, 9))) for _ in range(k)]))
     progs = [gen_programs.program(rng, 4) for _ in range(100000 if tier == "thorough" else 15000)]
